@@ -9,6 +9,6 @@ import (
 
 const hooksCompiled = false
 
-func trieStructure(k *K, t *trie.Trie, what string) bool { return true }
-func indexStructure(k *K, idx *regions.Index) bool       { return true }
+func trieStructure(k *K, t *trie.Trie, what string) bool    { return true }
+func indexStructure(k *K, idx *regions.Index) bool          { return true }
 func sharesMemory(idx *regions.Index, s []int) (bool, bool) { return false, false }
